@@ -111,6 +111,7 @@ inductive Res (α : Type) where
   | entries (l : List (Name × α))
   | err
   | down
+deriving DecidableEq
 
 def fileSize {α β : Type} (cfg : Cfg α β) (bs : List β) : Nat := (bs.map cfg.weight).sum
 
@@ -131,8 +132,17 @@ def maybeRotate {α β : Type} (cfg : Cfg α β) (d : Dir β) (m : Mem) (nm : Na
   | some st =>
     if fileSize cfg ((d.get st.name).getD []) > cfg.rotateAt then rotate d m nm else (d, m, true)
 
+/-- Insertion into a name-sorted directory listing (structural recursion, so that concrete histories
+reduce by `decide`). -/
+def insertFile {β : Type} (f : Name × List β) : Dir β → Dir β
+  | [] => [f]
+  | g :: t => if f.1 ≤ g.1 then f :: g :: t else g :: insertFile f t
+
+/-- `slices.SortFunc(dirEntries, by name)`; names are unique, so the sorted order is unique. -/
+def sortByName {β : Type} (d : Dir β) : Dir β := d.foldr insertFile []
+
 def hydrate {α β : Type} (cfg : Cfg α β) (d : Dir β) : Mem :=
-  let sorted := d.mergeSort (fun a b => decide (a.1 ≤ b.1))
+  let sorted := sortByName d
   ⟨sorted.map (fun f => ⟨f.1, maxEpochOf cfg (readFile cfg.codec f.2)⟩), none⟩
 
 def readAll {α β : Type} (cfg : Cfg α β) (d : Dir β) : List Name → Option (List (Name × α))
